@@ -739,4 +739,104 @@ Proof.
     + apply P3; [discriminate|exact Hsol].
 Qed.
 
+
+(* ---------------- the loop ---------------- *)
+Lemma recv_data_old idx id d st : r_old (recv_data c idx id d st) = r_old st.
+Proof.
+  unfold recv_data. destruct (alookup id (r_pipes st)) as [pp|]; [|reflexivity].
+  destruct (pp_closed pp); [reflexivity|].
+  destruct (spend st) as [st1|] eqn:Es; [|reflexivity].
+  destruct (spend_core st st1 Es) as (_ & _ & _ & _ & _ & _ & Eo & _).
+  destruct (is_nil d).
+  - destruct (r_asyncerr st1); [destruct (pp_fd pp); simpl; auto|].
+    destruct (if has_bits (st_mode (pp_stat pp)) ModeSetuid || has_bits (st_mode (pp_stat pp)) ModeSetgid
+              then sys_chmod c (r_fs st1) (pp_path pp) (unix_perm (st_mode (pp_stat pp))) else (r_fs st1, ROk)) as [f1 r1].
+    destruct (if is_err r1 then (f1, r1) else sys_utimens c f1 (pp_path pp) (st_mtime (pp_stat pp))) as [f2 r2].
+    simpl. exact Eo.
+  - destruct (match pp_fd pp with Some i => (r_fs st1, RFd i) | None => sys_open_wronly c (r_fs st1) (pp_path pp) false 0 end) as [f1 r].
+    destruct r; simpl; auto. destruct (fd_pwrite f1 i (pp_off pp) d) as [f2 r2]. simpl. exact Eo.
+Qed.
+
+Lemma maybe_wait_old idx st : r_old (maybe_wait c dl idx st) = r_old st.
+Proof.
+  unfold maybe_wait.
+  destruct ((running st || match r_out st with Drained _ => true | _ => false end) && negb (is_dead st)); [|reflexivity].
+  destruct (r_closed st && negb (r_waited st)); [|reflexivity].
+  destruct (r_asyncerr st); [reflexivity|].
+  destruct (is_nil (r_pipes st)); [|reflexivity].
+  destruct (spend st) as [st1|] eqn:Es; [|reflexivity].
+  destruct (spend_core st st1 Es) as (_ & _ & _ & _ & _ & _ & Eo & _). simpl. exact Eo.
+Qed.
+
+Definition clean_packet (pk : packet) : Prop :=
+  match pk with PStat (Some s) => clean_path (st_path s) | _ => True end.
+
+Lemma recv_packet_inv idx pk st acc :
+  MInv st acc -> clean_packet pk -> exists acc', MInv (recv_packet c dl idx pk st) acc'.
+Proof.
+  intros M Hc. unfold recv_packet. destruct (negb (running st)); [exists acc; exact M|].
+  assert (X : exists acc', MInv (match pk with
+                                 | PErr => set_out st (Failed idx)
+                                 | PFin => set_out st (Drained idx)
+                                 | POther => st
+                                 | PStat None =>
+                                   if r_closed st then set_out st (Panicked idx)
+                                   else if is_dead st then set_out st (Failed idx)
+                                   else diff_flush c idx (r_old st) (set_flags st true (r_waited st))
+                                 | PStat (Some s) => recv_stat c idx s st
+                                 | PData id d => recv_data c idx id d st
+                                 end) acc').
+  { destruct M as [[G A] Ho]. destruct pk as [[s|]|id d| | |].
+    - apply (recv_stat_inv idx s st acc); [split; [split|]; auto|exact Hc].
+    - exists acc. destruct (r_closed st); [apply (MInv_stop st); auto; discriminate|].
+      destruct (is_dead st); [apply (MInv_stop st); auto; discriminate|].
+      rewrite Ho. cbn [diff_flush]. split; [|reflexivity].
+      apply (GInv_quiet st _ acc b0 (conj G A)); try (unfold b0; lia); simpl; auto.
+      + apply step_same; [apply (g_wf st acc G)|apply (g_next st acc G)].
+      + repeat split.
+      + apply G.
+    - exists acc. split; [apply recv_data_inv; split; auto|]. rewrite recv_data_old. exact Ho.
+    - exists acc. apply (MInv_stop st); auto; discriminate.
+    - exists acc. apply (MInv_stop st); auto; discriminate.
+    - exists acc. split; [split|]; auto. }
+  destruct X as [acc' [G' Ho']]. exists acc'. split; [apply maybe_wait_inv; exact G'|].
+  rewrite maybe_wait_old. exact Ho'.
+Qed.
+
+Lemma recv_loop_inv : forall pks idx st acc,
+  MInv st acc -> Forall clean_packet pks -> exists acc', MInv (recv_loop c dl idx pks st) acc'.
+Proof.
+  induction pks as [|pk pks IH]; intros idx st acc M Hc; simpl; [exists acc; exact M|].
+  inversion Hc; subst. destruct (recv_packet_inv idx pk st acc M H1) as [acc1 M1].
+  apply (IH (S idx) _ acc1 M1 H2).
+Qed.
+
+(* no temporary name is in use inside D when the transfer starts *)
+Definition tmp_unused : Prop := forall j t, reach f0 j -> tmpname t -> blookup t (ents f0 j) = None.
+
+Lemma MInv_init budget : tmp_unused -> MInv (rstate_init f0 D true tmps0 budget) [].
+Proof.
+  intros Hu. split; [|reflexivity]. split.
+  - constructor; simpl.
+    + apply step_refl; auto. unfold b0. lia.
+    + constructor; [left; reflexivity|constructor].
+    + apply inv_init.
+    + constructor.
+    + intros q [].
+    + intros id pp [].
+    + intros t Ht. right. exact Ht.
+  - intros _. constructor; simpl.
+    + exact Hu.
+    + intros d l [E|[]]. inversion E; subst. exact I.
+    + intros q [].
+Qed.
+
+Theorem recv_merge_step pks budget :
+  tmp_unused -> Forall clean_packet pks ->
+  step TAll b0 f0 (r_fs (recv_run f0 root D dl true tmps0 pks budget)).
+Proof.
+  intros Hu Hc. unfold recv_run.
+  destruct (recv_loop_inv pks 0 _ [] (MInv_init budget Hu) Hc) as [acc [[G _] _]]. apply G.
+Qed.
+
 End Recv.
